@@ -85,7 +85,11 @@ func atomicCfgs(c *core.Ctx) []atomicCfg {
 		if c.Thorough() {
 			o = append(o, aop{"Swap", r2, 0}, aop{"CAS", ones, 0}, aop{"Add", (1 << 16) & mask, 0})
 		}
-		out = append(out, atomicCfg{Kind: k, MaxLen: c.Pick(4, 5), Ops: o})
+		out = append(out, atomicCfg{Kind: k, MaxLen: c.Pick(3, 4), Ops: o})
+		if c.Thorough() {
+			// histories of length 5 over the boundary deltas
+			out = append(out, atomicCfg{Kind: k, MaxLen: 5, Ops: []aop{{"Load", 0, 0}, {"Add", 1, 0}, {"Add", ones, 0}, {"Add", minS, 0}, {"Add", maxS, 0}, {"Swap", maxS, 0}, {"CAS", 0, ones}}})
+		}
 	}
 	out = append(out, atomicCfg{Kind: "bool", MaxLen: c.Pick(4, 5), Ops: []aop{{"Load", 0, 0}, {"Store", 1, 0}, {"Store", 0, 0}, {"Swap", 1, 0}, {"Swap", 0, 0},
 		{"CAS", 0, 1}, {"CAS", 1, 0}, {"CAS", 1, 1}}})
@@ -517,12 +521,11 @@ func runAtomic(c *core.Ctx, pool *gjs.Pool) bool {
 	cfgs := atomicCfgs(c)
 	params := paramsModule(c)
 	cfg := "SPECIFICATION Spec\nINVARIANT TypeOK\nINVARIANT AddWraps\nINVARIANT ReadsAndSwaps\nINVARIANT ValueInv\nINVARIANT Emit\nCHECK_DEADLOCK FALSE\n"
-	r, err := tlcx.Run(c, tlcx.Opts{Module: "AtomicScen", Cfg: cfg, Workers: 8, Timeout: 25 * time.Minute, HeapMB: 6144,
+	r, err := tlcx.Run(c, tlcx.Opts{Module: "AtomicScen", Cfg: cfg, Workers: 2, Timeout: 25 * time.Minute, HeapMB: 3072,
 		Files: map[string]string{"C13Params.tla": params}})
 	if !tlcx.MustComplete(c, r, err, "AtomicScen") {
 		return false
 	}
-	c.Phase("atomic_tlc")
 	preds := make([]map[string]string, len(cfgs))
 	for i := range cfgs {
 		cf := &cfgs[i]
@@ -563,6 +566,12 @@ func runAtomic(c *core.Ctx, pool *gjs.Pool) bool {
 			return false
 		}
 	}
+	if corrupt("atomic") {
+		for k, v := range preds[1] { // one history of the u32 cell: append a bogus result to the last step
+			preds[1][k] = strings.TrimSuffix(v, ";") + ",7;"
+			break
+		}
+	}
 	var pcs []aProgCfg
 	for i := range cfgs {
 		pcs = append(pcs, aProgCfg{&cfgs[i], cfgs[i].MaxLen, 0, 1})
@@ -596,7 +605,6 @@ func runAtomic(c *core.Ctx, pool *gjs.Pool) bool {
 		col.flush(c)
 		return false
 	}
-	c.Phase("atomic_exec")
 	evals, traces := 0, 0
 	forms := []string{"function", "method"}
 	for i := range cfgs {
@@ -668,8 +676,12 @@ func runAtomic(c *core.Ctx, pool *gjs.Pool) bool {
 				files["predicted.txt"] = pl
 				files["observed.txt"] = fmt.Sprintf("0.%d:%s|%s;\n", form, histKey(h[:dd+1]), strings.Join(gs[:minInt(dd+1, len(gs))], ";"))
 				key := fmt.Sprintf("atomic:%s:%s:%s", cf.Kind, forms[form], op.Name)
+				if cf.Kind == "value" && op.Name == "CAS" && op.A == 0 && wnt == "0,0" && got == "1" {
+					// Value.CompareAndSwap(nil, x) on a Value that holds something: Go returns false
+					key = "atomic:value:CompareAndSwap(nil,x)_on_stored_value"
+				}
 				narrow := fmt.Sprintf("atomic:%s:%s:%s:spec=%s:got=%s", cf.Kind, forms[form], op.String(cf.Kind), wnt, got)
-				col.fail(&failure{group: narrow, rank: dd, keys: []string{narrow, key + ":" + classOf(wnt) + "->" + classOf(got)}, files: files,
+				col.fail(&failure{group: key, rank: dd, keys: []string{narrow, key + ":" + classOf(wnt) + "->" + classOf(got)}, files: files,
 					summary: fmt.Sprintf("sync/atomic %s cell (%s form) after [%s]: %s gives %s under GopherJS, specification and native Go: %s", cf.Kind, forms[form], strings.Join(desc, "; "), op.String(cf.Kind), got, wnt)})
 			}
 			if i == 1 && evals%977 == 0 {
